@@ -177,6 +177,32 @@ func (w *World) stringTable(fnName string) []string {
 	return keys
 }
 
+// MapRangeSites lists the functions of the Zn packages that range over a Go map.
+func (w *World) MapRangeSites() []string {
+	seen := map[string]bool{}
+	for f := range ssautil.AllFunctions(w.Prog) {
+		p := f.Package()
+		if p == nil || !strings.HasPrefix(p.Pkg.Path(), znPrefix) {
+			continue
+		}
+		for _, b := range f.Blocks {
+			for _, in := range b.Instrs {
+				if rg, ok := in.(*ssa.Range); ok {
+					if _, isMap := rg.X.Type().Underlying().(*types.Map); isMap {
+						seen[f.String()] = true
+					}
+				}
+			}
+		}
+	}
+	var out []string
+	for f := range seen {
+		out = append(out, f)
+	}
+	sort.Strings(out)
+	return out
+}
+
 // PureFuncs: functions without side effects whose calls with symbolic
 // arguments are summarised (their own un-summarised behaviour is checked by
 // C04-K1 / the conformance replays).  Harness helpers named pure* qualify too.
